@@ -1,4 +1,8 @@
 //@file kiki/src/parser.rs mod=crate::parser
+//@[ imports
+use vstd::prelude::*;
+pub assume_specification[ <IdentOrTerminalIdent as Clone>::clone ](x: &IdentOrTerminalIdent) -> (r: IdentOrTerminalIdent) ensures r == *x;
+//@]
 #[derive(Debug, Clone, PartialEq, Eq)]
 pub enum Token {
     Underscore(crate::data::ByteIndex),
@@ -30,6 +34,9 @@ pub enum IdentOrUnderscore {
     ),
 }
 
+//@[ T8: derived Clone kept external; structural contract assumed
+#[verifier::external_derive(Clone)]
+//@]
 #[derive(Debug, Clone, PartialEq, Eq)]
 pub enum IdentOrTerminalIdent {
     Ident(
